@@ -1,6 +1,8 @@
 package main
 
 import (
+	"sync"
+	"sync/atomic"
 	"context"
 	"fmt"
 	"math/rand"
@@ -435,6 +437,35 @@ func wmExec(ops []string) []string {
 					res[i] = "waiting"
 				}
 			}
+		case "herd":
+			// "herd n": on a fresh watermark, n goroutines wait for indices 1..5, one Done releases them all at once; every
+			// one of them must see DoneUntil at or above its index the moment its WaitForMark returns nil
+			n, _ := strconv.Atoi(t[1])
+			w2 := watermark.New()
+			w2.Begin(5)
+			w2.VerifSync()
+			var wg sync.WaitGroup
+			var early atomic.Int64
+			started := make(chan struct{}, n)
+			for g := 0; g < n; g++ {
+				wg.Add(1)
+				go func(g int) {
+					defer wg.Done()
+					idx := uint64(1 + g%5)
+					started <- struct{}{}
+					if err := w2.WaitForMark(context.Background(), idx); err == nil && w2.DoneUntil() < idx {
+						early.Add(1)
+					}
+				}(g)
+			}
+			for g := 0; g < n; g++ {
+				<-started
+			}
+			time.Sleep(2 * time.Millisecond)
+			w2.Done(5)
+			wg.Wait()
+			w2.Stop()
+			res[i] = fmt.Sprintf("early=%d", early.Load())
 		case "waitctx":
 			// WaitForMark with an already cancelled context on an index that is not reached: context error
 			ts, _ := strconv.ParseUint(t[1], 10, 64)
@@ -495,6 +526,10 @@ func wmGen(r *rand.Rand, n, length int) []Case {
 			default:
 				ops = append(ops, fmt.Sprintf("b %d", ts), fmt.Sprintf("d %d", ts))
 				i++
+			}
+			if r.Intn(40) == 0 {
+				ops = append(ops, fmt.Sprintf("herd %d", []int{50, 400, 1500}[r.Intn(3)]))
+				tags["herd-of-waiters"] = true
 			}
 			if r.Intn(12) == 0 && nwait < 6 {
 				// a waiter on an index that may or may not be begun/finished itself
